@@ -1,5 +1,6 @@
 (* C06 — property theorems only (statements + [exact]); see Proofs.v for the proofs.
-   [repaired] is the model of the current source, [original] of the source before the two fix: commits. *)
+   [repaired] is the model of the current source, [original] of the source before the three fix: commits
+   (gas charge 02027fe, CanTransfer sign fcbc04d, UNSTAKE grant 82270fb). *)
 From Coq Require Import List ZArith NArith Lia.
 From V.C06 Require Import Model Proofs.
 Import ListNotations.
@@ -24,6 +25,30 @@ Theorem C06_tx_conserves : forall U t l, universe U -> tx_closed U t -> tx_wf t 
   wealth U l' + burned l' = wealth U l + burned l /\ nonneg l' /\ sched_ok U (sched l').
 Proof. exact tx_conserves. Qed.
 Print Assumptions C06_tx_conserves.
+
+(* The sum of the balances is never increased by a transaction, successful or failed: it decreases by exactly what
+   moved into [held] = locked stake + refund escrow + destroyed (self-destruct onto itself / operator-node charge),
+   and [held] never shrinks inside a transaction (nested reverts included). *)
+Theorem C06_tx_balances_never_increase : forall U t l, universe U -> tx_closed U t -> tx_wf t -> nonneg l -> sched_ok U (sched l) ->
+  let l' := exec_tx repaired t l in
+  sumU U (bal l') = sumU U (bal l) - (held l' - held l) /\ held l <= held l' /\ sumU U (bal l') <= sumU U (bal l).
+Proof. exact tx_balances_never_increase. Qed.
+Print Assumptions C06_tx_balances_never_increase.
+
+(* A failed contract transaction (fee refused, bad data, precheck, intrinsic gas, EVM error / out of gas after value
+   transfers, whatever the trace): stake, escrow and burn are untouched and no balance other than the source's and the
+   fee account's changes - the frame's movements are reverted, then only fees are charged. Any code variant. *)
+Theorem C06_failed_contract_only_fees : forall var src dok lf val iok tr g stale l,
+  same_except src l (exec_tx var (TContract src dok lf val iok tr false g stale) l).
+Proof. exact failed_contract_only_fees. Qed.
+Print Assumptions C06_failed_contract_only_fees.
+
+(* A transfer that fails at any target keeps none of the credits made before the failure: only the fee is charged. *)
+Theorem C06_failed_transfer_only_fee : forall var src tgts l,
+  change_assets (bal (fst (fee_step l src))) src tgts = None ->
+  exec_tx var (TTransfer src tgts) l = fst (fee_step l src).
+Proof. exact failed_transfer_only_fee. Qed.
+Print Assumptions C06_failed_transfer_only_fee.
 
 (* [burned] grows only by a contract naming itself as beneficiary of SELFDESTRUCT (and the operator-node charge,
    by definition of exec_tx): a trace without self-suicide destroys nothing. *)
@@ -68,8 +93,15 @@ Theorem C06_negative_value_mint_refuted : exists U l t, universe U /\ nonneg l /
 Proof. exact negative_value_mint_refuted. Qed.
 Print Assumptions C06_negative_value_mint_refuted.
 
-(* ... and the original source conserves exactly under the guard that excludes both: EVM values non-negative and,
-   on success, gas fee <= the source's balance after the frame. *)
+(* The source before the fix: opUnStake scheduled the requested amount for the origin while only the whole tokens of it
+   left the stake. *)
+Theorem C06_unstake_mint_refuted : exists U l t, universe U /\ nonneg l /\ sched_ok U (sched l) /\ tx_closed U t /\ tx_wf t /\
+  wealth U (exec_tx original t l) + burned (exec_tx original t l) > wealth U l + burned l.
+Proof. exact unstake_mint_refuted. Qed.
+Print Assumptions C06_unstake_mint_refuted.
+
+(* ... and the original source conserves exactly under the guard that excludes the three: EVM values non-negative,
+   UNSTAKE requests not above what is released and, on success, gas fee <= the source's balance after the frame. *)
 Theorem C06_original_conserves_under_guard : forall U t l, universe U -> tx_closed U t -> tx_wf t -> nonneg l ->
   sched_ok U (sched l) -> gas_guard t l ->
   let l' := exec_tx original t l in
